@@ -138,6 +138,25 @@ theorem C15_eqn_as_value (hf : IsWord f) (hr : IsWord r) (hhv : hv.value = "#val
   have n1 := hf.notstar; have n2 := hr.notstar; have n3 := hf.nonempty
   parse_simp
 
+/-- the same equation where the call stands to the right of a `>` path: `g > f() as r` ≡ `g > f(!#value as r)` -/
+theorem C15_eqn_as_value_under_gt (hg : IsWord g) (hf : IsWord f) (hr : IsWord r)
+    (hhv : hv.value = "#value") (hhvt : hv.type = .word) (hgt : gt.value = ">")
+    (hlp : lp.value = "(") (hrp : rp.value = ")") (hb : bang.value = "!") (has : as_.value = "as") :
+    compileToks [g, gt, f, lp, rp, as_, r] = compileToks [g, gt, f, lp, bang, hv, as_, r, rp] := by
+  have r0 := resolve_word _ hg
+  have r1 := resolve_word _ hf
+  have r2 := resolve_word _ hr
+  have r2' : resolve tbl hv = .ok (1000, 1001) :=
+    resolve_word _ ⟨hhvt, by rw [hhv]; decide, by rw [hhv]; decide, by rw [hhv]; decide⟩
+  have r3 : resolve tbl gt = .ok (100, 99) := resolve_op gt ">" _ hgt (by decide)
+  have r4 : resolve tbl lp = .ok (200, 0) := resolve_op lp "(" _ hlp (by decide)
+  have r5 : resolve tbl rp = .ok (0, 501) := resolve_op rp ")" _ hrp (by decide)
+  have r6 : resolve tbl bang = .ok (375, 376) := resolve_op bang "!" _ hb (by decide)
+  have r7 : resolve tbl as_ = .ok (350, 349) := resolve_op as_ "as" _ has (by decide)
+  have n1 := hf.notstar; have n2 := hr.notstar; have n3 := hf.nonempty
+  have n4 := hg.notstar; have n5 := hg.nonempty
+  parse_simp
+
 /-- `$x` ≡ `* as x` -/
 theorem C15_eqn_dollar (hx : IsWord x) (hd : dollar.value = "$") (has : as_.value = "as")
     (hst : star.value = "*") (hstt : star.type = .word) :
